@@ -69,6 +69,14 @@ type TypeContract struct {
 	Ghosts []GhostField
 	Invs   []Clause
 	Guards []GuardDecl
+	Frozen []FrozenDecl
+}
+
+// FrozenDecl: fields that are assigned only while the object is being constructed by one of the listed functions.
+type FrozenDecl struct {
+	Fields []string
+	Ctors  []string // function keys ("peering.newLinkBase")
+	Line   string
 }
 
 type GhostField struct {
@@ -158,7 +166,7 @@ func loadContracts(repo string) (*Contracts, error) {
 var clauseKeywords = map[string]bool{
 	"func": true, "type": true, "pred": true, "fun": true, "lemma": true,
 	"requires": true, "ensures": true, "modifies": true, "invariant": true, "decreases": true,
-	"update": true, "option": true, "ghost": true, "guarded": true, "props": true, "callsite": true, "havoc": true, "callers": true, "pool": true, "yields": true, "crash_invariant": true,
+	"update": true, "option": true, "ghost": true, "guarded": true, "frozen": true, "props": true, "callsite": true, "havoc": true, "callers": true, "pool": true, "yields": true, "crash_invariant": true,
 }
 
 func (C *Contracts) errorf(format string, a ...any) {
@@ -314,6 +322,26 @@ func (C *Contracts) parseFile(pkg, file, src string) {
 				g.Fields = append(g.Fields, strings.TrimSpace(f))
 			}
 			curT.Guards = append(curT.Guards, g)
+		case "frozen":
+			if curT == nil {
+				C.errorf("%s: frozen outside type", where)
+				continue
+			}
+			k := strings.Index(rest, " by ")
+			if k < 0 {
+				C.errorf("%s: frozen <fields> by <constructors>", where)
+				continue
+			}
+			fd := FrozenDecl{Line: where}
+			for _, f := range strings.Split(rest[:k], ",") {
+				fd.Fields = append(fd.Fields, strings.TrimSpace(f))
+			}
+			for _, f := range strings.Split(rest[k+4:], ",") {
+				f = strings.TrimSpace(f)
+				// either form may be meant: "newLinkBase" / "Type.Method" (this package) or "pkg.Func"
+				fd.Ctors = append(fd.Ctors, f, pkg+"."+f)
+			}
+			curT.Frozen = append(curT.Frozen, fd)
 		case "props":
 			if curF != nil {
 				for _, p := range strings.Split(rest, ",") {
